@@ -58,6 +58,22 @@ SENSITIVITY = [
 # ---------------------------------------------------------------------------
 # requests
 
+_ODD_NS = st.sampled_from(['', '/', '//', 'root/', '/root/cimv2/'])
+
+
+def _odd_namespaces(draw, recipe):
+    """
+    In one of eight recipes the namespace of path objects is replaced by an
+    unusual but accepted spelling (empty, only slashes, stray slashes).
+    """
+    if draw(st.integers(0, 7)) != 0:
+        return
+    for x in S.walk(recipe):
+        if isinstance(x, dict) and x.get('k') in ('ipath', 'cpath') and \
+                x.get('namespace') is not None:
+            x['namespace'] = draw(_ODD_NS)
+
+
 def requests_strategy():
     strings = st.one_of(S.cim_string(), S.cim_string(), S.cim_string_illegal())
 
@@ -65,6 +81,7 @@ def requests_strategy():
     def strat(draw):
         op = O.ALL_OPS[draw(st.integers(0, len(O.ALL_OPS) - 1))]
         call = O.g_call(draw, op, strings=strings)
+        _odd_namespaces(draw, call)
         dns = draw(st.sampled_from([None, 'root/cimv2', 'interop', 'a/b']))
         code = draw(st.sampled_from([1, 7]))
         pull = draw(st.sampled_from([None, None, True, False]))
@@ -230,6 +247,7 @@ def objects_strategy():
             r = S._g_qualifier(draw, strings=strings)
         else:
             r = S._g_qualdecl(draw, strings=strings)
+        _odd_namespaces(draw, r)
         how = draw(st.sampled_from(['toxml', 'str', 'indent2', 'indent0',
                                     'cdata']))
         return (kind, r, how)
